@@ -28,6 +28,7 @@ import (
 	"os"
 	"sort"
 	"sync"
+	"sync/atomic"
 	"testing"
 	"time"
 
@@ -45,10 +46,12 @@ type zzvSCEntry struct {
 type zzvSCPend struct {
 	ID string `json:"id"`
 	At int    `json:"at"`
+	Ok bool   `json:"ok"` // the stored command was authentic (genuine bytes, timestamp inside the window) when stored
 }
 
 type zzvSCState struct {
-	Key   bool                  `json:"key"`
+	Key     bool                  `json:"key"`
+	SleepOn bool                  `json:"sleepon"` // the Flooder knows nothing of sleep mode: echoed (always true here)
 	Clock int                   `json:"clock"`
 	Cache map[string]zzvSCEntry `json:"cache"`
 	St    string                `json:"st"`
@@ -243,7 +246,7 @@ func (w *zzvSCWorld) inZone() bool {
 }
 
 func (w *zzvSCWorld) state() zzvSCState {
-	s := zzvSCState{Key: w.key, Clock: w.clock, Cache: map[string]zzvSCEntry{}, St: w.st, Pend: zzvSCPend{ID: "none", At: -1}}
+	s := zzvSCState{Key: w.key, SleepOn: true, Clock: w.clock, Cache: map[string]zzvSCEntry{}, St: w.st, Pend: zzvSCPend{ID: "none", At: -1, Ok: true}}
 	for id := range w.ids {
 		s.Cache[id] = zzvSCEntry{At: -1, From: "none"}
 	}
@@ -267,7 +270,14 @@ func (w *zzvSCWorld) state() zzvSCState {
 			if !ok {
 				id = "?"
 			}
-			s.Pend = zzvSCPend{ID: id, At: w.absTime(w.f.pendingWakeAt)}
+			at := w.absTime(w.f.pendingWakeAt)
+			g, genuine := w.genuine[id]
+			genuine = genuine && bytes.Equal(g[:], c.Signature[:]) && c.Timestamp == w.realTs(w.in.Genuine[id])
+			d := at - w.in.Genuine[id]
+			if d < 0 {
+				d = -d
+			}
+			s.Pend = zzvSCPend{ID: id, At: at, Ok: genuine && d <= w.in.W}
 		}
 		w.f.pendingWakeMu.RUnlock()
 	}
@@ -467,7 +477,7 @@ func zzvSCSpecRes(a zzvSCAct) string {
 }
 
 func zzvSCSameState(a, b zzvSCState) bool {
-	if a.Key != b.Key || a.Clock != b.Clock || a.St != b.St || a.Pend != b.Pend || len(a.Cache) != len(b.Cache) {
+	if a.Key != b.Key || a.SleepOn != b.SleepOn || a.Clock != b.Clock || a.St != b.St || a.Pend != b.Pend || len(a.Cache) != len(b.Cache) {
 		return false
 	}
 	for k, v := range a.Cache {
@@ -742,4 +752,170 @@ func TestZZVSleepCmdTrace(t *testing.T) {
 	bw.Flush()
 	f.Close()
 	zzvEmit("summary", map[string]any{"traces": ok, "stalled": stalled, "events": events, "accepts": accepts})
+}
+
+
+// ---- Receive concurrent with cleanup(): property oracle on the real Flooder -----------------------------------
+
+// TestZZVSleepCmdConc: a large sleep-command cache (validly signed commands delivered for real), goroutines looping
+// cleanup(), workers delivering fresh validly signed commands and replaying each immediately (same bytes; same and
+// other peer; sleep and wake handler).  Oracle = the property: every command is acted on at most once, and a fresh
+// valid command is accepted.  Call / Ret are numbered by one atomic counter, so that each reported case shows which
+// cleanup() calls overlapped it.
+func TestZZVSleepCmdConc(t *testing.T) {
+	fill := zzvEnvInt("ZZV_FILL", 40000)
+	ncmds := zzvEnvInt("ZZV_CMDS", 400)
+	workers := zzvEnvInt("ZZV_WORKERS", 4)
+	cleaners := zzvEnvInt("ZZV_CLEANERS", 1)
+	in := &zzvSCIn{W: 2, TTL: 2, Cap: 1 << 30, Genuine: map[string]int{}, Peers: []string{"p1", "p2", "p3"}, UnitMs: 100000, SlackMs: 40000}
+	w := zzvSCNewWorld(t, in, true, zzvSeed())
+	w.P = time.Now()
+	f := w.f
+	operator := zzvSCNewID(t)
+	peers := []identity.AgentID{w.peers["p1"], w.peers["p2"], w.peers["p3"]}
+	ts := uint64(time.Now().Unix())
+	var seq atomic.Int64
+	t0 := time.Now()
+
+	// fill the cache through the real handlers
+	var wg sync.WaitGroup
+	var filled atomic.Int64
+	for g := 0; g < 8; g++ {
+		wg.Add(1)
+		go func(g int) {
+			defer wg.Done()
+			for i := g; i < fill; i += 8 {
+				c := &protocol.SleepCommand{OriginAgent: operator, CommandID: uint64(i), Timestamp: ts, SeenBy: []identity.AgentID{peers[0]}}
+				c.Signature = crypto.Sign(w.kp.PrivateKey, c.SignableBytes())
+				if f.HandleSleepCommand(peers[0], c) {
+					filled.Add(1)
+				}
+			}
+		}(g)
+	}
+	wg.Wait()
+	if int(filled.Load()) != fill || f.SleepCommandSeenCacheSize() != fill {
+		t.Fatalf("zzv: cache fill: %d accepted, %d entries, want %d", filled.Load(), f.SleepCommandSeenCacheSize(), fill)
+	}
+	w.sender.take()
+
+	type span struct{ call, ret int64 }
+	var cmu sync.Mutex
+	var cleans []span
+	stop := make(chan struct{})
+	var cwg sync.WaitGroup
+	for c := 0; c < cleaners; c++ {
+		cwg.Add(1)
+		go func() {
+			defer cwg.Done()
+			for {
+				select {
+				case <-stop:
+					return
+				default:
+				}
+				sp := span{call: seq.Add(1)}
+				f.cleanup()
+				sp.ret = seq.Add(1)
+				cmu.Lock()
+				cleans = append(cleans, sp)
+				cmu.Unlock()
+			}
+		}()
+	}
+
+	type delivery struct {
+		Handler string `json:"handler"`
+		From    string `json:"from"`
+		Call    int64  `json:"call"`
+		Ret     int64  `json:"ret"`
+		Res     bool   `json:"accepted"`
+	}
+	type cmdrec struct {
+		id  uint64
+		del []delivery
+	}
+	recs := make([][]cmdrec, workers)
+	for wk := 0; wk < workers; wk++ {
+		wg.Add(1)
+		go func(wk int) {
+			defer wg.Done()
+			for i := wk; i < ncmds; i += workers {
+				id := uint64(1<<40 + i)
+				sc := protocol.SleepCommand{OriginAgent: operator, CommandID: id, Timestamp: ts}
+				sig := crypto.Sign(w.kp.PrivateKey, sc.SignableBytes())
+				rec := cmdrec{id: id}
+				deliver := func(handler string, from int) {
+					d := delivery{Handler: handler, From: in.Peers[from], Call: seq.Add(1)}
+					if handler == "sleep" {
+						d.Res = f.HandleSleepCommand(peers[from], &protocol.SleepCommand{OriginAgent: operator, CommandID: id, Timestamp: ts,
+							Signature: sig, SeenBy: []identity.AgentID{peers[from]}})
+					} else {
+						d.Res = f.HandleWakeCommand(peers[from], &protocol.WakeCommand{OriginAgent: operator, CommandID: id, Timestamp: ts,
+							Signature: sig, SeenBy: []identity.AgentID{peers[from]}})
+					}
+					d.Ret = seq.Add(1)
+					rec.del = append(rec.del, d)
+				}
+				first := []string{"sleep", "wake"}[i%2]
+				deliver(first, i%3)
+				deliver(first, i%3)                              // immediate replay, same handler and peer
+				deliver([]string{"wake", "sleep"}[i%2], (i+1)%3) // replay as the other kind from another peer
+				recs[wk] = append(recs[wk], rec)
+			}
+		}(wk)
+	}
+	wg.Wait()
+	close(stop)
+	cwg.Wait()
+
+	overl := func(d delivery) []span {
+		var r []span
+		for _, c := range cleans {
+			if c.call < d.Ret && d.Call < c.ret {
+				r = append(r, c)
+			}
+		}
+		return r
+	}
+	ncmd, ndel, twice, rejected, overlapped := 0, 0, 0, 0, 0
+	for _, rs := range recs {
+		for _, r := range rs {
+			ncmd++
+			acc := 0
+			ov := false
+			for _, d := range r.del {
+				ndel++
+				if d.Res {
+					acc++
+				}
+				if len(overl(d)) > 0 {
+					ov = true
+				}
+			}
+			if ov {
+				overlapped++
+			}
+			if acc > 1 || !r.del[0].Res {
+				kind := "twice"
+				if acc <= 1 {
+					kind = "fresh-rejected"
+					rejected++
+				} else {
+					twice++
+				}
+				if twice+rejected <= 20 {
+					oc := [][2]int64{}
+					for _, d := range r.del {
+						for _, c := range overl(d) {
+							oc = append(oc, [2]int64{c.call, c.ret})
+						}
+					}
+					zzvEmit(kind, map[string]any{"command_id": r.id, "deliveries": r.del, "accepts": acc, "overlapping_cleanups": oc})
+				}
+			}
+		}
+	}
+	zzvEmit("summary", map[string]any{"commands": ncmd, "deliveries": ndel, "cleanups": len(cleans), "overlapped": overlapped,
+		"twice": twice, "fresh_rejected": rejected, "cache_entries": fill, "wall_ms": time.Since(t0).Milliseconds()})
 }
